@@ -44,7 +44,9 @@ def gen_config(rng):
             'backend': rng.choice(['mem', 'mem', 'amem', 'local']), 'delay': rng.choice([0.0, 0.0, 0.002])}
 
 
-NAMES = ['a', 'b.txt', 'x y', 'é', 'ü-名', 'dir.tmp', '-dash', 'q?x', 'h#y', 'p%41z', "it's", 'café.tmp']
+NAMES = ['a', 'b.txt', 'x y', 'é', 'ü-名', 'dir.tmp', '-dash', 'q?x', 'h#y', 'p%41z', "it's", 'café.tmp',
+         # names that are not in Unicode normalisation form C (a base letter + combining mark, the ANGSTROM SIGN, a decomposed Hangul syllable)
+         'e\u0301t', 'A\u030a', '\u212bngstr', '\u1112\u1161\u11ab']
 
 
 def gen_tree(rng, mx, mn):
